@@ -10,7 +10,7 @@ Context {T : Type} `{Num T} `{Sqrt T}.
 Notation heap := (heap T).
 Notation val := (list (list T)).
 
-(* ---- for out_i, diff_i in zip(out, diff): diff_i.divide(denom, out=out_i) *)
+(* ---- for out_i, src_i in zip(out, src): src_i.divide|multiply(d, out=out_i) *)
 Fixpoint safe (out diff : ref) : Prop :=
   match out, diff with
   | o :: out', d :: diff' => ~ In o diff' /\ safe out' diff'
@@ -25,36 +25,36 @@ Proof.
   - apply IH; intros i Hi Ho; apply (Hd i); right; assumption.
 Qed.
 
-Lemma div_loop_next out diff denom (h : heap) : next (div_loop out diff denom h) = next h.
+Lemma zip_loop_next f out diff denom (h : heap) : next (zip_loop f out diff denom h) = next h.
 Proof.
-  unfold div_loop; revert diff h; induction out as [|o out IH]; intros [|d diff] h; cbn [combine fold_left]; auto.
+  unfold zip_loop; revert diff h; induction out as [|o out IH]; intros [|d diff] h; cbn [combine fold_left]; auto.
   rewrite IH. apply next_put.
 Qed.
 
-Lemma div_loop_wrote out diff denom (h : heap) :
+Lemma zip_loop_wrote f out diff denom (h : heap) :
   NoDup out -> below (next h) out -> length diff = length out -> safe out diff -> dis denom out ->
-  wrote h (div_loop out diff denom h) out (bdiv (get h diff) (hd [] (get h denom))).
+  wrote h (zip_loop f out diff denom h) out (bzip f (get h diff) (hd [] (get h denom))).
 Proof.
-  unfold div_loop; revert diff h; induction out as [|o out IH]; intros [|d diff] h Hnd Hbo Hl Hs Hdn;
+  unfold zip_loop; revert diff h; induction out as [|o out IH]; intros [|d diff] h Hnd Hbo Hl Hs Hdn;
     cbn in Hl; try discriminate.
   - split; [reflexivity | intros; reflexivity].
   - inversion Hnd as [|? ? Hni Hnd']; subst. destruct Hs as [Hod Hs].
     assert (Hob : o < next h) by (eapply below_in; [exact Hbo | left; reflexivity]).
     assert (Hbo' : below (next h) out) by (inversion Hbo; assumption).
     cbn [combine fold_left fst snd].
-    set (h1 := st2 (e2 ndiv) [d] denom [o] h).
+    set (h1 := st2 (e2 f) [d] denom [o] h).
     assert (Hm1 : forall i, i <> o -> mem h1 i = mem h i).
     { intros i Hi; unfold h1, st2; apply mem_put_notin; intros [E|[]]; congruence. }
-    assert (Ho1 : mem h1 o = vmap2 ndiv (mem h d) (hd [] (get h denom))).
+    assert (Ho1 : mem h1 o = vmap2 f (mem h d) (hd [] (get h denom))).
     { unfold h1, st2; cbn [get map e2 pzip put hd tl]. apply mem_write_same. }
     assert (Hdn' : dis denom out) by (intros i Hi Ho; apply (Hdn i Hi); right; exact Ho).
     assert (Hn1 : next h1 = next h) by (unfold h1; apply st2_next).
     destruct (IH diff h1 Hnd' ltac:(rewrite Hn1; exact Hbo') ltac:(congruence) Hs Hdn') as [Hg Hf].
     split.
-    + unfold bdiv in *. cbn [get map]. f_equal.
+    + unfold bzip in *. cbn [get map]. f_equal.
       * rewrite Hf by (rewrite ?Hn1; assumption). exact Ho1.
       * unfold get in Hg; rewrite Hg. unfold get.
-        transitivity (map (fun a => vmap2 ndiv a (hd [] (map (mem h) denom))) (map (mem h1) diff)); [|f_equal].
+        transitivity (map (fun a => vmap2 f a (hd [] (map (mem h) denom))) (map (mem h1) diff)); [|f_equal].
         -- apply map_ext; intros a. do 2 f_equal. apply map_ext_in. intros i Hi. apply Hm1. intros ->. apply (Hdn o Hi). left; reflexivity.
         -- apply map_ext_in; intros i Hi. apply Hm1. intros ->; exact (Hod Hi).
     + intros i Hi Hni'. rewrite Hf.
@@ -76,12 +76,12 @@ Ltac absorb1x :=
   first
   [ absorb1
   | match goal with
-    | |- context [div_loop ?o ?d ?dn ?hv] => is_var hv;
+    | |- context [zip_loop ?f ?o ?d ?dn ?hv] => is_var hv;
         let hn := fresh "h" in let W := fresh "W" in let N := fresh "N" in
-        assert (W : wrote hv (div_loop o d dn hv) o (bdiv (get hv d) (hd [] (get hv dn))))
-          by (apply div_loop_wrote; [ first [assumption | apply seq_NoDup] | below_tac | len_tac | safe_tac | dis_tac ]);
-        pose proof (div_loop_next o d dn hv) as N;
-        set (hn := div_loop o d dn hv) in *; clearbody hn; nxt
+        assert (W : wrote hv (zip_loop f o d dn hv) o (bzip f (get hv d) (hd [] (get hv dn))))
+          by (apply zip_loop_wrote; [ first [assumption | apply seq_NoDup] | below_tac | len_tac | safe_tac | dis_tac ]);
+        pose proof (zip_loop_next f o d dn hv) as N;
+        set (hn := zip_loop f o d dn hv) in *; clearbody hn; nxt
     | |- context [proj_l1 ?r ?a ?b ?hv] => is_var hv;
         let hn := fresh "h" in let W := fresh "W" in let N := fresh "N" in let P := fresh "P" in
         assert (P : pre hv a b) by pre_tac;
@@ -113,5 +113,11 @@ Lemma linf_ok sigma (h : heap) x out : pre h x out ->
   post h (call_linf sigma x out h) out (pure_linf sigma (get h x)).
 Proof.
   intros Hpre; split_alias Hpre; unfold call_linf; rewrite ?ref_eqb_refl, ?He; exec; absorbx; finish.
+Qed.
+
+Lemma huber_ok ps gamma sigma (h : heap) x out : pre h x out ->
+  post h (call_huber ps gamma sigma x out h) out (pure_huber ps gamma sigma (get h x)).
+Proof.
+  intros Hpre; split_alias Hpre; unfold call_huber, pure_huber; destruct ps; exec; absorbx; finish.
 Qed.
 End L4.
